@@ -134,6 +134,64 @@ def run_spec(name):
                             out.update(result="violation", cex=rr, stats=stats)
                             return out
                     out.setdefault("unconfirmed", []).append({"what": desc, "text": out["text"], "order": list(perm)})
+        # the same program object matched, given other argument values in place, and matched again: the second answer
+        # must be the second values (a remembered graph / result of the first call must not leak)
+        zw = {n: z3.Real("w_" + n) for n in names}
+        E = engine.Engine(max_paths=600)
+        E.base = []
+
+        def run2():
+            P.STANDINS["map"].clear()
+            inst = Tm(**{n: P.SNum(T.V("float", zv[n]), float) for n in names})
+            match_template(Tm, inst)
+            other = Tm(**{n: P.SNum(T.V("float", zw[n]), float) for n in names})
+            _take_arguments(inst, other)
+            return match_template(Tm, inst)
+
+        with U.coverage(out["funcs"]):
+            try:
+                paths = E.explore(run2)
+            except engine.PathLimit as e:
+                out.update(result="inconclusive", why=str(e))
+                return out
+        out["paths"] += len(paths)
+        for k in stats:
+            stats[k] += E.stats.get(k, 0)
+        for pth in paths:
+            if pth.kind == "abort":
+                out.update(result="inconclusive", why="abort (rematch): %s" % pth.value)
+                continue
+            out["reach"] += 1
+            cands = []
+            if pth.kind == "exc":
+                cands.append(("second match_template on the same object raises %s: %s" % (type(pth.value).__name__, str(pth.value)[:120]), z3.BoolVal(True)))
+            elif set(pth.value) != set(names):
+                cands.append(("second match: parameters %r, template has %r" % (sorted(pth.value), names), z3.BoolVal(True)))
+            else:
+                for n in names:
+                    try:
+                        ne = z3.simplify(z3.Not(T.eq(P.as_v(pth.value[n]), T.V("float", zw[n]))))
+                    except TypeError:
+                        cands.append(("second match: parameter %s matched to a non-number" % n, z3.BoolVal(True)))
+                        continue
+                    if not z3.is_false(ne):
+                        cands.append(("second match on the same object: parameter %s is not the value the program now holds" % n, ne))
+            for desc, cond in cands:
+                r, mdl = E.query(pth, cond)
+                if r == "unsat":
+                    continue
+                if r != "sat":
+                    out.update(result="inconclusive", why="solver %s" % r)
+                    continue
+                va = [T._ratf(mdl.eval(zv[n], model_completion=True)) for n in names]
+                vb = [T._ratf(mdl.eval(zw[n], model_completion=True)) for n in names]
+                for a, b in ((va, vb), ([0.3 + 0.7 * k for k in range(len(names))], [-1.25 + 0.5 * k for k in range(len(names))])):
+                    rr = rematch_check(name, a, b)
+                    if isinstance(rr, dict):
+                        rr["symbolic_what"] = desc
+                        out.update(result="violation", cex=rr, stats=stats)
+                        return out
+                out.setdefault("unconfirmed", []).append({"what": desc, "text": out["text"]})
     finally:
         P.STANDINS["on"] = False
         P.STANDINS["map"].clear()
@@ -147,11 +205,51 @@ def run_spec(name):
             rr["symbolic_what"] = "native run fails although the symbolic run holds (encoder gap)"
             out.update(result="violation", cex=rr)
             return out
-    rr = structural_edits(name, v)
-    out["validated"] = out.get("validated", 0) + rr[0]
-    if rr[1]:
-        out.update(result="violation", cex=rr[1])
+    rr = rematch_check(name, v, [-1.25 + 0.5 * k for k in range(len(names))])
+    out["validated"] = out.get("validated", 0) + 1
+    if isinstance(rr, dict):
+        rr["symbolic_what"] = rr["what"]
+        out.update(result="violation", cex=rr)
+        return out
+    for mode in ("fresh", "matched_copy", "matched_inplace"):
+        rr = structural_edits(name, v, mode)
+        out["validated"] = out.get("validated", 0) + rr[0]
+        if rr[1]:
+            out.update(result="violation", cex=rr[1])
+            return out
     return out
+
+
+def _take_arguments(inst, other):
+    """give `inst` the argument values of `other` (same template) in place"""
+    for o, o2 in zip(inst._operations, other._operations):
+        for k in ("args", "kwargs"):
+            if k in o2:
+                o[k] = o2[k]
+
+
+def rematch_check(name, vals, vals2):
+    """match, change the argument values of the same object in place, match again (also a deep copy made after the first match)"""
+    from blackbird.utils import match_template
+    import copy
+    Tm = _load(name)
+    names = sorted(Tm.parameters)
+    v, v2 = dict(zip(names, vals)), dict(zip(names, vals2))
+    base = {"text": text_of(name), "values": ["rematch", [vals, vals2]]}
+    inst = Tm(**v)
+    try:
+        match_template(Tm, inst)
+        cp = copy.deepcopy(inst)
+        for obj, what in ((inst, "the same program object"), (cp, "a deep copy made after the first match")):
+            _take_arguments(obj, Tm(**v2))
+            res = match_template(Tm, obj)
+            bad = [n for n in names if n not in res or not U.close(res[n], v2[n], rel=1e-9)]
+            if bad:
+                return dict(base, what="match_template on %s after its arguments were changed returns stale values" % what,
+                            observed=repr({n: res.get(n) for n in bad}), expected=repr({n: v2[n] for n in bad}))
+    except Exception as e:  # noqa
+        return dict(base, what="match / change arguments / match again raises %s" % type(e).__name__, observed="%s: %s" % (type(e).__name__, str(e)[:160]), expected="the new values")
+    return None
 
 
 def _load(name):
@@ -182,8 +280,10 @@ def concrete_check(name, perm, vals):
     return None
 
 
-def structural_edits(name, vals):
-    """single structural edits of an instance must be rejected with TemplateError (concrete-structure runs)"""
+def structural_edits(name, vals, mode="fresh"):
+    """single structural edits of an instance must be rejected with TemplateError (concrete-structure runs).
+    mode 'fresh': the edited copy was never matched; 'matched_copy': the instance is matched first and the copies are
+    taken afterwards; 'matched_inplace': additionally each edited copy is itself matched before the edit is applied"""
     from blackbird.utils import match_template, TemplateError
     import copy
     Tm = _load(name)
@@ -192,6 +292,20 @@ def structural_edits(name, vals):
     n = 0
     edits = []
     inst = Tm(**v)
+    if mode != "fresh":
+        match_template(Tm, inst)
+
+    _cp = copy
+
+    class _Copy:
+        @staticmethod
+        def deepcopy(x):
+            c = _cp.deepcopy(x)
+            if mode == "matched_inplace":
+                match_template(Tm, c)
+            return c
+
+    copy = _Copy
     nops = len(inst._operations)
     for i in range(nops):
         e = copy.deepcopy(inst)
@@ -233,9 +347,9 @@ def structural_edits(name, vals):
         except TemplateError:
             continue
         except Exception as ex:  # noqa
-            return n, {"text": text_of(name), "values": [what, vals], "symbolic_what": what, "what": "structural edit (%s) raises %s instead of TemplateError" % (what, type(ex).__name__),
+            return n, {"text": text_of(name), "values": [what + "|" + mode, vals], "symbolic_what": what, "what": "structural edit (%s, %s) raises %s instead of TemplateError" % (what, mode, type(ex).__name__),
                        "observed": "%s: %s" % (type(ex).__name__, str(ex)[:160]), "expected": "TemplateError"}
-        return n, {"text": text_of(name), "values": [what, vals], "symbolic_what": what, "what": "structural edit (%s) is accepted" % what, "observed": repr(res), "expected": "TemplateError"}
+        return n, {"text": text_of(name), "values": [what + "|" + mode, vals], "symbolic_what": what, "what": "structural edit (%s, %s) is accepted" % (what, mode), "observed": repr(res), "expected": "TemplateError"}
     return n, None
 
 
@@ -245,8 +359,10 @@ REPLAY = '''#!/usr/bin/env python
 import sys; sys.path.insert(0, %(root)r)
 from bbverif.checks import c17
 a, b = %(vals)r
-if isinstance(a, str):
-    n, r = c17.structural_edits(%(name)r, b)
+if a == "rematch":
+    r = c17.rematch_check(%(name)r, b[0], b[1])
+elif isinstance(a, str):
+    n, r = c17.structural_edits(%(name)r, b, a.split("|")[1] if "|" in a else "fresh")
 else:
     r = c17.concrete_check(%(name)r, a, b)
 if not r:
